@@ -297,12 +297,14 @@ Proof.
     exists (te_w te). split; [exact Hth|]. rewrite H, firstn_all in Hg. exact Hg.
 Qed.
 
-Theorem script_no_foreign_candidate wordcompl mh g t c :
+(* what is used of the sentence maker: its answer on THIS word graph is a chain from 0 *)
+Lemma script_no_foreign_candidate_local wordcompl mh g t c :
   wf_graph g -> wf_table t ->
+  (forall s, poet (script_wgraph g t mh) (g_ilen g) = Some s -> wg_path_ok (script_wgraph g t mh) 0 (g_ilen g) s = true) ->
   In c (script_query poet wordcompl mh g t) ->
   phrase_ok g t c \/ completion_ok g t wordcompl c \/ sentence_ok g t c.
 Proof.
-  intros W WT Hin. unfold script_query, script_translation in Hin.
+  intros W WT Hpoet Hin. unfold script_query, script_translation in Hin.
   set (predict := wordcompl && (g_ilen g =? g_input_len g)) in *.
   destruct (lookup g t 0 predict) as [|x coll] eqn:EL; [destruct Hin|].
   assert (Hs : 0 < g_ilen g).
@@ -310,11 +312,19 @@ Proof.
   apply distinct_incl in Hin. apply in_app_or in Hin. destruct Hin as [Hin|Hin].
   - right. right. destruct ((2 <=? length (g_edges g)) && negb (has_exact_at (rev (x :: coll)) (g_ilen g))); [|destruct Hin].
     destruct (poet (script_wgraph g t mh) (g_ilen g)) as [s|] eqn:EP; [|destruct Hin].
-    destruct Hin as [<-|[]]. exists s. split; [|reflexivity]. now apply (sentence_is_concatenation g t mh).
+    destruct Hin as [<-|[]]. exists s. split; [|reflexivity]. apply (wg_path_chain g t mh W WT). now apply Hpoet.
   - rewrite <- EL in Hin. apply script_phrases_sound in Hin; try assumption.
     destruct Hin as [H|[H1 [H2 [H3 [H4 H5]]]]]; [now left|]. right. left.
     unfold predict in H3. apply andb_true_iff in H3. destruct H3 as [H3 H3']. apply Nat.eqb_eq in H3'.
     unfold completion_ok. auto 10.
+Qed.
+
+Theorem script_no_foreign_candidate wordcompl mh g t c :
+  wf_graph g -> wf_table t ->
+  In c (script_query poet wordcompl mh g t) ->
+  phrase_ok g t c \/ completion_ok g t wordcompl c \/ sentence_ok g t c.
+Proof.
+  intros W WT. apply script_no_foreign_candidate_local; [exact W|exact WT|]. intros s. apply poet_chain.
 Qed.
 
 (** * every spelled entry is there *)
